@@ -34,6 +34,8 @@ pub enum Kind {
     Panic,
     /// wake accounting (counting wakers) differs from the model
     Wakes,
+    /// two threads inside one critical section / lost update under the lock
+    Overlap,
 }
 
 #[derive(Clone, Debug, Serialize, Deserialize)]
@@ -190,6 +192,10 @@ fn run_typed<T: Payload>(p: &Program, cfg: &RunCfg, m: Option<Arc<Explored>>) ->
             hist::reset();
             let mut sets = setup::<T>(&p);
             let flags = Arc::new(Flags::new());
+            let lockprog = p.is_lock_program();
+            if lockprog {
+                flags.touch_lock();
+            }
             let mut joins = Vec::new();
             let rest: Vec<_> = sets.drain(1..).collect();
             for (i, (s, r)) in rest.into_iter().enumerate() {
@@ -207,6 +213,17 @@ fn run_typed<T: Payload>(p: &Program, cfg: &RunCfg, m: Option<Arc<Explored>>) ->
                 j.join().unwrap();
             }
             drop(c0);
+            if lockprog {
+                // every acquisition's increment must be visible at the end
+                let v = flags.protected_value();
+                if v != flags.acquired.get() {
+                    panic!(
+                        "KANAL-VERIF-VIOLATION overlap: {} critical sections ran but the protected counter reads {}",
+                        flags.acquired.get(),
+                        v
+                    );
+                }
+            }
             let mut h = hist::take();
             h.publishes = ctl::publishes();
             h.end_stamp = hist::stamp();
@@ -249,6 +266,8 @@ fn classify(msg: &str) -> Kind {
         Kind::DataRace
     } else if msg.contains("KANAL-VERIF-VIOLATION use-after-return") {
         Kind::UseAfterReturn
+    } else if msg.contains("KANAL-VERIF-VIOLATION overlap") {
+        Kind::Overlap
     } else if msg.contains("KANAL-VERIF-VIOLATION nowait") {
         Kind::NoWait
     } else if msg.to_lowercase().contains("deadlock") {
